@@ -414,13 +414,6 @@ class Algebra:
                             return self.rf(xnode)
                         from .terms import fn as _fn, add as _add, neg as _neg, mul as _mul, ONE as _ONE
                         return self.rf(_fn('sqrt', _add(_ONE, _neg(_mul(xnode, xnode)))))
-        if len(argrfs) == 1 and fname == 'abs':
-            num, den = argrfs[0]
-            if num and num[min(num)] < 0 and all(g not in self.den_poly or True for g in den):
-                # |t| = |-t|: canonical sign of the argument (leading coefficient positive)
-                from .terms import fn as _fn, neg as _neg
-                argrfs = [(p_neg(num), den)]
-                node = _fn('abs', _neg(node.args[0])) if node.args[0].op != 'neg' else node
         if len(argrfs) == 1 and fname == 'abs' and self.oracle is not None:
             from .terms import le as _le, ZERO as _Z
             if self.oracle(_le(_Z, node.args[0])):
